@@ -452,12 +452,10 @@ def _augment_array_dataclass(
         def _dataclass_sequence_or_mapping_entries_are_identical(a, b):
             if isinstance(a, Mapping):
                 assert isinstance(b, Mapping)
+                # (by key: the two may have been filled in different orders)
                 return (
                     a.keys() == b.keys()
-                    and all(
-                        b_k is a_k
-                        for a_k, b_k in zip(
-                            a.values(), b.values(), strict=True)))
+                    and all(b[key] is a_k for key, a_k in a.items()))
             else:
                 return (
                     len(a) == len(b)
